@@ -18,6 +18,28 @@ pub fn cleanup_all() {
     }
 }
 
+/// Remove scratch directories left behind by processes that no longer
+/// exist (a worker killed at its timeout cannot clean up after itself).
+pub fn reap_stale() {
+    let base = if Path::new("/dev/shm").is_dir() { PathBuf::from("/dev/shm") } else { PathBuf::from("/verif/.work") };
+    let Ok(rd) = std::fs::read_dir(&base) else { return };
+    for e in rd.flatten() {
+        let name = e.file_name().to_string_lossy().to_string();
+        if !name.starts_with("verif-") {
+            continue;
+        }
+        // verif-<tag>-<pid>-<seq>
+        let parts: Vec<&str> = name.rsplitn(3, '-').collect();
+        if parts.len() == 3 {
+            if let Ok(pid) = parts[1].parse::<u32>() {
+                if !Path::new(&format!("/proc/{}", pid)).exists() {
+                    let _ = std::fs::remove_dir_all(e.path());
+                }
+            }
+        }
+    }
+}
+
 pub struct WorkDir(PathBuf);
 
 impl WorkDir {
